@@ -225,3 +225,10 @@ def always_at(cfg: CFG, site: int, formula: str, start: int = None, loop_bound: 
         if p.facts.known(formula) is not True:
             return False, p, len(ps)
     return bool(ps), None, len(ps)
+
+
+def must_at(cfg: CFG, site: int, formula: str, start: int = None, start_label: str = None) -> bool:
+    """formula known true on every path from start (default entry) to site (dataflow, no enumeration)."""
+    st = cfg.must_facts(start, start_label=start_label)
+    f = st.get(site)
+    return f is not None and f.known(formula) is True
